@@ -308,7 +308,7 @@ fn wire_cases(tier: Tier, tables: &Tables, l2: bool) -> Vec<WireCase> {
 }
 
 fn script_for(c: &WireCase, md: &Md) -> (Script, Md) {
-    let mut script = Script { initial_md: vec![], msgs: vec![vec![2]], end: None, handler_err: c.handler_err, bidi: BidiMode::ReadAll, disable_compression: false };
+    let mut script = Script { initial_md: vec![], msgs: vec![vec![2]], end: None, handler_err: c.handler_err, bidi: BidiMode::ReadAll, disable_compression: false, exact_hint: false };
     let mut req_md: Md = vec![];
     match c.carrier {
         Carrier::Request => req_md = md.clone(),
@@ -390,9 +390,7 @@ fn judge_wire(o: &mut Outcome, carrier: Carrier, h: &HeaderMap, md: &Md) {
             let mut decoded: Vec<Vec<u8>> = vec![];
             let mut bad = false;
             for g in &got {
-                if g.contains(&b'=') {
-                    o.violate(format!("{c}-wire-bin-padded"), format!("binary value under {key:?} is padded on the wire: {:?}", String::from_utf8_lossy(g)));
-                }
+                // padding on the wire is legal (peers must accept both forms): only the decoded bytes are judged
                 match b64::decode(g) {
                     Ok(d) => decoded.push(d),
                     Err(e) => {
@@ -718,7 +716,7 @@ fn padded_body(tables: &Tables, c: &PadCase, ch: &Chooser) -> Outcome {
             tonic::Status::from_header_map(&h).map(|s| s.metadata().clone()).ok_or_else(|| "no status".to_string())
         }
         Route::Server => {
-            let script = Script { initial_md: vec![], msgs: vec![vec![2]], end: None, handler_err: false, bidi: BidiMode::Ignore, disable_compression: false };
+            let script = Script { initial_md: vec![], msgs: vec![vec![2]], end: None, handler_err: false, bidi: BidiMode::Ignore, disable_compression: false, exact_hint: false };
             let (mut server, log) = new_server(script, ch, false);
             let mut h = entries.clone();
             h.insert(grpc_ct.0, hv(grpc_ct.1.as_bytes()));
@@ -1403,7 +1401,7 @@ pub fn property(tier: Tier) -> Property {
     let wire_l1 = Section::new(
         "wire-l1",
         cfg(),
-        "cases: carrier (request metadata client->handler; response headers; error Status on a trailers-only response; error Status on trailers after a message) x every call shape producing that carrier x metadata list: one entry (binary keys {a-bin,-bin} x every byte string of length 0..=4 [T: 0..=6] over {00,3D,FB,FF}; ASCII keys {a,x-y,bin,abin,grpc-timeout} x {\"\",v,'a b','k=v==',all visible punctuation,0}), one key repeated 2..3 times (menus with every length mod 3; T: every ordered pair of byte strings of length <=4), five mixed 4-5 entry maps under all insertion orders, each reserved name with 1..2 values at every position of a base list, every subset of the six reserved names. Path: generated client -> in-process adapter (captures the raw http header blocks/trailers) -> generated server, no runtime, no chunking choices. Oracle (hand-written base64/percent decoding): on the wire each non-reserved key carries exactly the user's values in order, binary values as unpadded base64 whose independent decode equals the bytes; no wire value under a reserved name equals a user-supplied value (the menus exclude tonic's own legitimate values); the peer's get_all/get_all_bin/iter give the same bytes in the same order; the status code/message/details are undisturbed. Non-trivial = the list has a binary value, a repeated key or a reserved name.",
+        "cases: carrier (request metadata client->handler; response headers; error Status on a trailers-only response; error Status on trailers after a message) x every call shape producing that carrier x metadata list: one entry (binary keys {a-bin,-bin} x every byte string of length 0..=4 [T: 0..=6] over {00,3D,FB,FF}; ASCII keys {a,x-y,bin,abin,grpc-timeout} x {\"\",v,'a b','k=v==',all visible punctuation,0}), one key repeated 2..3 times (menus with every length mod 3; T: every ordered pair of byte strings of length <=4), five mixed 4-5 entry maps under all insertion orders, each reserved name with 1..2 values at every position of a base list, every subset of the six reserved names. Path: generated client -> in-process adapter (captures the raw http header blocks/trailers) -> generated server, no runtime, no chunking choices. Oracle (hand-written base64/percent decoding): on the wire each non-reserved key carries exactly the user's values in order, binary values as base64 (padded or not) whose independent decode equals the bytes; no wire value under a reserved name equals a user-supplied value (the menus exclude tonic's own legitimate values); the peer's get_all/get_all_bin/iter give the same bytes in the same order; the status code/message/details are undisturbed. Non-trivial = the list has a binary value, a repeated key or a reserved name.",
         wire_cases(tier, &tables, false),
         move |c: &WireCase| describe_wire(&t1, c),
         move |c: &WireCase, ch: &Chooser| wire_l1_body(&t2, c, ch),
